@@ -108,14 +108,16 @@ def parseSEv (s : String) : Option DEv :=
   match ws.getLast? with
   | none => none
   | some fl =>
-    let flags : Option (Bool × Bool) := match fl with
-      | "00" => some (false, false) | "10" => some (true, false)
-      | "01" => some (false, true) | "11" => some (true, true) | _ => none
+    -- `<cf><bf>`; bf = `2`: the backend fails and is still inside the block afterwards
+    let flags : Option (Bool × Bool × Bool) := match fl with
+      | "00" => some (false, false, false) | "10" => some (true, false, false)
+      | "01" => some (false, true, false) | "11" => some (true, true, false)
+      | "02" => some (false, true, true) | "12" => some (true, true, true) | _ => none
     let body := " ".intercalate ws.dropLast
     let parts := (body.splitOn "; ").map (fun p => parseStmt ((trim p).splitOn " "))
     match flags, parts with
-    | some (cf, bf), [some st] => some (.one { stmt := st, cf := cf, bf := bf, t0 := 0 })
-    | some (false, false), ps =>
+    | some (cf, bf, stay), [some st] => some (.one { stmt := st, cf := cf, bf := bf, stay := stay, t0 := 0 })
+    | some (false, false, false), ps =>
       if ps.length ≥ 2 && ps.all Option.isSome then some (.script (ps.filterMap id)) else none
     | _, _ => none
 
